@@ -1,3 +1,5 @@
 pub mod c07;
 pub mod c09;
 pub mod c10;
+pub mod c12;
+pub mod c13;
